@@ -28,7 +28,7 @@ ASSUMPTIONS = [
 ]
 
 STR_ALPHA = ['"', '\\', '\n', '\t', '\x00', '\x7f', '\xe9', '\u2028', '\x85', '\ud800',
-             '(', ')', '/', ':', '~', '#', ' ', 'a', 'u']
+             '(', ')', '/', ':', '~', '#', ' ', 'a', 'u', '\u0301', '\u212b']       # a + U+0301 and U+212B are not in NFC
 ATOM_ALPHA = list('019-+.eE"\\anNIt[]')
 NUM_RE = re.compile(r'-?(0|[1-9][0-9]*)(\.[0-9]+)?([eE][+-]?[0-9]+)?')
 PLAIN_RE = re.compile(r'[A-Za-z_-]+')
@@ -84,6 +84,48 @@ def _ref_eval(a):
     return ('other',)
 
 
+_ESC = {'"': '"', '\\': '\\', '/': '/', 'b': '\b', 'f': '\f', 'n': '\n', 'r': '\r', 't': '\t'}
+
+
+def _ref_unquote(a):
+    """Text value of a non-numeric atom: a symbol is returned unchanged; "..." that is a JSON string gets its quotes
+    removed and its escapes resolved; anything else between quotes is not a JSON string and stays as written."""
+    if not (len(a) >= 2 and a[0] == '"' and a[-1] == '"'):
+        return a
+    body = a[1:-1]
+    out = []
+    i = 0
+    while i < len(body):
+        c = body[i]
+        if c == '"' or ord(c) < 0x20:
+            return a
+        if c != '\\':
+            out.append(c)
+            i += 1
+            continue
+        if i + 1 >= len(body):
+            return a
+        e = body[i + 1]
+        if e in _ESC:
+            out.append(_ESC[e])
+            i += 2
+        elif e == 'u':
+            h = body[i + 2:i + 6]
+            if len(h) != 4 or any(x not in '0123456789abcdefABCDEF' for x in h):
+                return a
+            cp = int(h, 16)
+            i += 6
+            if 0xD800 <= cp <= 0xDBFF and body[i:i + 2] == '\\u':
+                h2 = body[i + 2:i + 6]
+                if len(h2) == 4 and all(x in '0123456789abcdefABCDEF' for x in h2) and 0xDC00 <= int(h2, 16) <= 0xDFFF:
+                    cp = 0x10000 + ((cp - 0xD800) << 10) + (int(h2, 16) - 0xDC00)
+                    i += 6
+            out.append(chr(cp))
+        else:
+            return a
+    return ''.join(out)
+
+
 def check_atom(a):
     f = []
     try:
@@ -110,10 +152,14 @@ def check_atom(a):
             f.append(('evaluate-none', 'evaluate(%r) -> None' % (a,)))
         if ref[0] in ('int', 'float'):
             pt = int if ref[0] == 'int' else float
-            if type(val) is not pt or val != ref[1]:
+            if type(val) is not pt or val != ref[1] or repr(val) != repr(ref[1]):        # repr: -0.0 is not 0.0
                 f.append(('evaluate-number', 'evaluate(%r) -> %r, JSON number grammar gives %s %r' % (a, val, ref[0], ref[1])))
         elif isinstance(val, (int, float)):
             f.append(('evaluate-number', 'evaluate(%r) -> %r although not JSON number syntax' % (a, val)))
+        elif ref[0] == 'other':
+            want = _ref_unquote(a)
+            if not (type(val) is str and val == want):
+                f.append(('evaluate-text', 'evaluate(%r) -> %r, expected %r (symbols unchanged, strings unquoted and unescaped)' % (a, val, want)))
         if ty[0] == 'ok':
             T = ty[1]
             if val is None:
@@ -175,10 +221,10 @@ def classes(case):
 def _atoms():
     num = st.from_regex(r'-?(0|[1-9][0-9]{0,25})(\.[0-9]{1,25})?([eE][+-]?[0-9]{1,4})?', fullmatch=True)
     near = st.text(alphabet=ATOM_ALPHA + list('xyz_{}:,'), min_size=0, max_size=40)
-    quoted = st.text(alphabet=st.sampled_from(list('ab"\\ntu0{}[]/\xe9\u2028')), max_size=30).map(lambda s: '"' + s + '"')
+    quoted = st.lists(st.sampled_from(list('ab"\\ntu0{}[]/\xe9\u2028') + ['\\u00e9', '\\u0301', '\u0301', '\\ud83d\\ude00', '\\ud800', 'e\u0301', '\u212b']), max_size=30).map(lambda s: '"' + ''.join(s) + '"')
     words = st.sampled_from(['true', 'false', 'null', 'NaN', 'Infinity', '-Infinity', 'nan', 'inf', '1_000', '0x10',
                              '01', '-', '+1', '1.', '.5', '1e', '--1', '1e400', '-0', '-0.0', '[1]', '{}', '{"a":1}',
-                             '"', '""', '"\\"', 'None', '1e-400', '\u0661\u0662'])
+                             '"', '""', '"\\"', 'None', '1e-400', '\u0661\u0662', '-0e0', '-0.00', '-1e-400', '-0E-5', 'e\u0301', '\u212b', 'A\u030a\u0301'])
     return st.one_of(num, near, quoted, words).filter(lambda a: not any(c in ' \t\r\n\v\f' for c in a))
 
 
